@@ -84,7 +84,7 @@ func genVecQueries(t *rapid.T, s *gen.Schema, want *spec.Obs, nDocs int, n int) 
 					live = append(live, uint64(d))
 				}
 			}
-			switch rapid.SampledFrom([]string{"lt-half", "gt-half", "all", "single", "empty", "gt-half-prefix", "gt-half-suffix"}).Draw(t, ql+"elig") {
+			switch rapid.SampledFrom([]string{"lt-half", "gt-half", "all", "single", "empty", "gt-half-prefix", "gt-half-suffix", "single-vector-docs"}).Draw(t, ql+"elig") {
 			case "all":
 				q.Eligible = live
 			case "empty":
@@ -108,6 +108,18 @@ func genVecQueries(t *rapid.T, s *gen.Schema, want *spec.Obs, nDocs int, n int) 
 				q.Eligible = append(q.Eligible, live[:len(live)*3/4]...)
 			case "gt-half-suffix":
 				q.Eligible = append(q.Eligible, live[len(live)/4:]...)
+			case "single-vector-docs": // every document with several vectors in the field is ineligible
+				perDoc := map[uint64]int{}
+				if vf := want.Vec[q.Field]; vf != nil {
+					for _, e := range vf.Entries {
+						perDoc[e.Doc]++
+					}
+				}
+				for _, d := range live {
+					if perDoc[d] <= 1 {
+						q.Eligible = append(q.Eligible, d)
+					}
+				}
 			}
 		}
 		if q.Filter && len(q.Eligible) > 1 && gen.Chance(t, ql+"eligDesc", 30) {
@@ -118,6 +130,17 @@ func genVecQueries(t *rapid.T, s *gen.Schema, want *spec.Obs, nDocs int, n int) 
 		}
 		if !q.Filter && gen.Chance(t, ql+"openFilter", 35) {
 			q.OpenFilter = true
+		}
+		out = append(out, q)
+	}
+	// one fixed query per case: a filtered search with every document eligible and a query of the
+	// wrong dimension (nothing may come back, whatever shortcut full selectivity allows)
+	if len(s.Vecs) > 0 && nDocs > 0 {
+		vo := s.Vecs[0]
+		q := vecQuery{Field: vo.Name, Q: make([]float32, vo.Dim+1), K: 3, Except: spec.DropSpec{Nil: true}, Filter: true}
+		q.Q[0] = 1
+		for d := 0; d < nDocs; d++ {
+			q.Eligible = append(q.Eligible, uint64(d))
 		}
 		out = append(out, q)
 	}
@@ -137,9 +160,35 @@ func genVecCase(t *rapid.T) vecCase {
 			N: rapid.SampledFrom([]int{1000, 1040, 1500}).Draw(t, "vwN"), Field: vo.Name, Dim: vo.Dim, Metric: vo.Metric, Opt: vo.Opt,
 			Seed: uint32(rapid.IntRange(0, 1000).Draw(t, "vwSeed")), Every: rapid.SampledFrom([]int{0, 7}).Draw(t, "vwEvery"),
 		}
+		// odd layouts give every third document a second vector in the field
+		c.Batch.VecWide.Multi = 3 * int(c.Batch.VecWide.Seed%2)
 	}
 	want := spec.Expect(c.Batch)
 	c.Queries = genVecQueries(t, s, want, c.Batch.NumDocs(), rapid.IntRange(2, 8).Draw(t, "nQueries"))
+	if vw := c.Batch.VecWide; vw != nil && vw.Multi > 0 {
+		// fixed queries on the clustered index: only the documents with one vector are eligible, and
+		// the query IS the second vector of an ineligible document
+		vf := want.Vec[vw.Field]
+		perDoc := map[uint64]int{}
+		for _, e := range vf.Entries {
+			perDoc[e.Doc]++
+		}
+		var elig []uint64
+		for d := 0; d < c.Batch.NumDocs(); d++ {
+			if perDoc[uint64(d)] <= 1 {
+				elig = append(elig, uint64(d))
+			}
+		}
+		added := 0
+		for i := len(vf.Entries) - 1; i > 0 && added < 2; i-- {
+			if vf.Entries[i].Doc == vf.Entries[i-1].Doc {
+				c.Queries = append(c.Queries, vecQuery{Field: vw.Field, Q: append([]float32(nil), vf.Entries[i].Vec...), K: 5,
+					Except: spec.DropSpec{Nil: true}, Filter: true, Eligible: elig})
+				added++
+				i -= len(vf.Entries) / 3
+			}
+		}
+	}
 	return c
 }
 
